@@ -424,6 +424,8 @@ def run(S):
     rule_disp(S)
     from checks.C15 import rule_fslot
     rule_fslot(S)
+    from checks.C13 import rule_atom
+    rule_atom(S)
     rule_drain(S)
     rule_destroy(S)
     rule_root(S)
